@@ -60,17 +60,17 @@ Definition qround (x : Q) : Z := Qfloor (x + (1 # 2)).
 
 Inductive mout := MPart (r : res part) | MZs (r : res (list Z)) | MQs (r : res (list Q)).
 
-Definition run (strict : bool) (o : op) : mout :=
+Definition run (o : op) : mout :=
   match o with
   | OInit lo hi cs => MPart (mk_part_raw lo hi cs)
   | OIndex p x false => MZs (index p x)
   | OIndex p x true => MQs (findex p x)
-  | OGet p e => MPart (getitem strict p e)
+  | OGet p e => MPart (getitem p e)
   | OInsert p i parts => MPart (insert p i parts)
   | OAppend p parts => MPart (append p parts)
   | OSqueeze p s => MPart (squeeze p s)
-  | OByaxis p (ByOne s) => MPart (byaxis1 strict p s)
-  | OByaxis p (BySeq l) => MPart (byaxis_seq strict p l)
+  | OByaxis p (ByOne s) => MPart (byaxis1 p s)
+  | OByaxis p (BySeq l) => MPart (byaxis_seq p l)
   | OFromIntv lo hi shape flags => MPart (upart_fromintv lo hi shape flags)
   | OUniform xmin xmax n dx flags => MPart (uniform_partition qround xmin xmax n dx flags)
   | OFromGrid cs omin omax => MPart (upart_fromgrid cs omin omax)
@@ -86,8 +86,8 @@ Definition res_match {A B} (f : A -> B -> bool) (impl : iout) (get : iout -> opt
   | _, _ => false
   end.
 
-Definition check (strict : bool) (c : case) : bool :=
-  match run strict (c_op c) with
+Definition check (c : case) : bool :=
+  match run (c_op c) with
   | MPart r => res_match (fun o p => pobs_close o (obs_of p)) (c_out c)
                  (fun i => match i with IPart o => Some o | _ => None end) r
   | MZs r => res_match Zeqs (c_out c) (fun i => match i with IZs l => Some l | _ => None end) r
